@@ -158,5 +158,34 @@ def relations(rng, tier, rpt):
             rep("secp256k1 back-ends differ on " + name, name, b, a)
         elif a.startswith("!") and a != "!Value":
             rep("secp256k1 back-ends escape with an undocumented error on " + name, name, a, "!Value")
+    # accessor order: a point's coordinates and encodings do not depend on which accessor is called first, and
+    # FromCoordinates(X, Y) rebuilds the same point (every curve, both parities)
+    na = 0
+    orders = [("X", "Y", "Raw", "RawEncoded"), ("Y", "X", "RawEncoded", "Raw"), ("Raw", "Y", "X", "RawEncoded"), ("RawEncoded", "Y", "Raw", "X"), ("Y", "Raw", "X", "RawEncoded")]
+
+    def read(p, a):
+        v = getattr(p, a)()
+        return v if isinstance(v, int) else v.ToBytes().hex()
+    for c, cls in POINT.items():
+        for i in range(12 if tier == "quick" else 300):
+            enc = gmul(c, rng.randrange(1, order(c)))
+            views = []
+            for od in orders:
+                p = cls.FromBytes(enc)
+                got = {a: run(lambda: read(p, a)) for a in od}
+                got2 = {a: run(lambda: read(p, a)) for a in od}
+                views.append(tuple(got[a] for a in ("X", "Y", "Raw", "RawEncoded")))
+                na += 1
+                if got != got2:
+                    rep("%s: an accessor returns different values on repeated calls" % cls.__name__, enc.hex() + " order " + "/".join(od), str(got2), str(got))
+            if len(set(views)) != 1:
+                rep("%s: coordinates/encodings depend on the order in which the accessors are first called" % cls.__name__, enc.hex(),
+                    str(views[1]), str(views[0]))
+                continue
+            x, y = views[0][0], views[0][1]
+            back = run(lambda: cls.FromCoordinates(x, y).RawEncoded().ToBytes().hex())
+            if back != views[0][3]:
+                rep("%s.FromCoordinates(X(), Y()) does not rebuild the point" % cls.__name__, enc.hex(), str(back), views[0][3])
+    rpt.extra["accessor_order_checks"] = na
     rpt.extra["backend_comparisons"] = n
     return bad[:8]
